@@ -54,13 +54,17 @@ def gen_cases(rng, n):
                               "fa": str(q["a"]), "fb": str(q["b"])})
             S = 1
             objs, kinds = [], []
-            pers = [(1, "s"), (2, "s"), (500, "ms")]
+            pers = [("s", 1, "s"), ("s", 2, "s"), ("s", 500, "ms")]
+            if not online and not (ops_of(wr) & {"sinceT", "untilT"}) and rng.random() < 0.6:     # (quadratic operators: windows of 4000 samples take seconds)
+                # ... or (offline objects) with the same sampling period under different default units (seeds r9 C11-3, C08-1: the memo's key left
+                # the default unit out): [0:2] is 2 samples under ms and 2000 under s
+                pers = [("ms", 1, "ms"), ("s", 1, "ms"), ("ms", 2, "ms")]
             rng.shuffle(pers)
             for k in range(K if K > 1 else 2):
-                pn, pu = pers[k]
+                du, pn, pu = pers[k]
                 fac = ("StlDiscreteTimeOnlineSpecification" if online else "StlDiscreteTimeOfflineSpecification") if rng.random() < 0.5 else "StlDiscreteTimeSpecification"
                 objs.append(dt_obj(wr, 1, vs, factory=fac, text="out = " + to_text(wr, 1), written=_copy.deepcopy(wr),
-                                   units={"def": "s", "pnum": pn, "pden": 1, "punit": pu}, unit="s", set_period=[pn, pu, 0.1], styles=[]))
+                                   units={"def": du, "pnum": pn, "pden": 1, "punit": pu}, unit=du, set_period=[pn, pu, 0.1], styles=[]))
                 kinds.append(online)
             K = len(objs)
         N = rng.choice([1, 2, 3, 4, 6])
